@@ -817,7 +817,7 @@ def nontrivial(spec):
 # The property predicate on the implementation
 # ==========================================================================================
 
-CAUSE_PRIORITY = ["mixedexpr", "measexpr", "meas", "freeexpr", "free", "tdmexpr", "tdm", "str", "bool", "list", "arr1", "arr2", "arr3", "cplx"]
+CAUSE_PRIORITY = ["mixedexpr", "measexpr", "meas", "freeexpr", "free", "tdmexpr", "tdm", "list", "str", "bool", "arr1", "arr2", "arr3", "cplx"]
 CAUSE_NAME = {"mixedexpr": "symbolic-param", "measexpr": "symbolic-param", "meas": "symbolic-param", "freeexpr": "symbolic-param",
               "free": "symbolic-param", "tdmexpr": "symbolic-param", "tdm": "symbolic-param", "str": "str-param", "bool": "bool-param",
               "list": "list-param", "arr1": "array-1d", "arr2": "array-2d", "arr3": "array-3d", "cplx": "complex-param"}
@@ -854,6 +854,21 @@ def _pkind(p):
     return "num"
 
 
+def _odd_free_name(spec):
+    """free parameters whose NAME is what the readers key on: q... (taken for a register reference) or p<digits>
+    (taken for a TDM loop variable)"""
+    names = set()
+    for c in spec["cmds"]:
+        for x in c.get("p", []):
+            if isinstance(x, dict) and "e" in x:
+                names |= {a[1] for a in expr_atoms(x["e"]) if a[0] == "free"}
+    if any(n.startswith("q") for n in names):
+        return "free-param-named-q*"
+    if any(re.fullmatch(r"p\d+", n) for n in names):
+        return "free-param-named-p<digits>"
+    return None
+
+
 def spec_cause(spec):
     """Coarse input class of a (minimised) failing spec, from a fixed vocabulary."""
     parts = []
@@ -862,6 +877,8 @@ def spec_cause(spec):
         parts.append("Fouriergate")
     elif "Del" in ops_ or "New" in ops_:
         parts.append("meta-op")
+    elif _odd_free_name(spec):
+        parts.append(_odd_free_name(spec))
     else:
         kinds = set()
         meas = False
@@ -1026,8 +1043,27 @@ def code_domain(spec):
     return True
 
 
-def full_signature(issue, min_spec):
+def _rename_odd(spec):
+    def ren(e):
+        if e[0] == "free" and (e[1].startswith("q") or re.fullmatch(r"p\d+", e[1])):
+            return ["free", "zz_" + e[1]]
+        return [e[0]] + [ren(x) if isinstance(x, list) else x for x in e[1:]]
+    sp = copy.deepcopy(spec)
+    for c in sp["cmds"]:
+        c["p"] = [({"e": ren(x["e"])} if isinstance(x, dict) and "e" in x else x) for x in c.get("p", [])]
+    return sp
+
+
+def full_signature(issue, min_spec, ir=None, level=None):
     if issue["exc"]:
+        if _odd_free_name(min_spec) and ir is not None:
+            # the odd name is only blamed when an ordinary name makes this failure go away
+            sp2 = _rename_odd(min_spec)
+            try:
+                if any(i["base"] == issue["base"] for i in check_roundtrip(sp2, ir, level, with_state=False)):
+                    return "%s[%s]" % (issue["base"], spec_cause(sp2))
+            except Exception:
+                pass
         return "%s[%s]" % (issue["base"], spec_cause(min_spec))
     return issue["base"]
 
@@ -1046,7 +1082,7 @@ def evaluate(ctx, spec, origin="search", levels=LEVELS, seen=None):
                 found.append((it["base"], ir, level))
                 continue
             ms = shrink(spec, ir, level, it["base"])
-            sig = full_signature(it, ms)
+            sig = full_signature(it, ms, ir, level)
             if seen is not None:
                 if key is not None:
                     seen.add(key)
@@ -1081,7 +1117,8 @@ BIN = {"add": 0, "mul": 1, "pow": 2}
 UN_INV = {v: k for k, v in UN.items()}
 BIN_INV = {v: k for k, v in BIN.items()}
 TARGETS = ["gaussian", "fock", "X8_01", "TD2", "bosonic", "tf"]
-ERRNAME = {"ENameError": "NameError", "ETypeError": "TypeError", "EValueError": "ValueError", "EIndexError": "IndexError"}
+ERRNAME = {"ENameError": "NameError", "ETypeError": "TypeError", "EValueError": "ValueError", "EIndexError": "IndexError",
+           "EAttributeError": "AttributeError"}
 
 
 class Tables:
@@ -1285,7 +1322,8 @@ def dec_x(t, T):
             "target": dec_opt(tg, lambda i: TARGETS[i]), "target_us": dec_opt(tgus, lambda i: TARGETS[i]),
             "cutoff": dec_opt(cu, int), "shots": dec_opt(sh, int),
             "stmts": [{"op": dec_cls(x[1]), "list": [dec_val(y, T) for y in x[2]], "phi": dec_opt(x[3], lambda v: dec_val(v, T)),
-                       "select": dec_opt(x[4], lambda v: dec_val(v, T)), "dark": dec_opt(x[5], lambda v: dec_val(v, T)), "wires": list(x[6])} for x in st]}
+                       "select": dec_opt(x[4], lambda v: dec_val(v, T)), "dark": dec_opt(x[5], lambda v: dec_val(v, T)), "wires": list(x[6]),
+                       "inv": bool(x[7])} for x in st]}
 
 
 # ---- canonical form of the implementation's IR objects -------------------------------------------
@@ -1344,7 +1382,8 @@ def canon_x(x, lits):
     st = []
     for s_ in x.statements:
         ps = s_.params
-        d = {"op": s_.name, "list": [], "phi": None, "select": None, "dark": None, "wires": [int(w) for w in s_.wires]}
+        d = {"op": s_.name, "list": [], "phi": None, "select": None, "dark": None, "wires": [int(w) for w in s_.wires],
+             "inv": bool(s_.is_inverse)}
         if isinstance(ps, dict):
             ps = dict(ps)
             d["phi"] = ir_pview(ps.pop("phi", None), lits)
@@ -1458,7 +1497,7 @@ def expr_survives(spec):
 # ==========================================================================================
 PROP = "C14"
 LEVEL = "proof"
-COQ_TARGETS = ["C14/Model.vo", "C14/Proofs.vo", "C14/Refuted.vo"]
+COQ_TARGETS = ["C14/Model.vo", "C14/Proofs.vo", "C14/Refuted.vo", "C14/Converse.vo"]
 COQ_DIRS = ["C14"]
 PROPERTIES_FILE = "Properties/C14.v"
 ALLOWED_AXIOMS = set()
@@ -1486,13 +1525,13 @@ ASSUMPTIONS = [
     "program name and Interferometer mesh / tolerance options are not part of the compared meaning; generate_code is checked on programs "
     "whose parameters are scalars or TDM loop variables, with 1e-5 relative tolerance (it snaps values to multiples of pi/12)",
 ]
-MANIFEST_TEXT = ("C14: Coq theorems C14_bb_roundtrip / C14_xir_roundtrip (full for the modelled object-level round trip: for every program "
-                 "satisfying the decidable hypotheses bb_prog_ok / xir_prog_ok, from(to(p)) = p exactly - commands, parameters, modes, "
-                 "dagger, select, dark_counts, target, options, TDM data); six universally quantified 'never survives' theorems and twelve "
-                 "_refuted witnesses show which hypotheses cannot be dropped for the current code (all recorded as known findings); the "
-                 "converse (hypotheses necessary for every program) is not proved.  Model tied to /repo by exact correspondence of writer "
-                 "records, reader results and exception kinds; the text layer (external blackbird / xir packages) and generate_code are "
-                 "covered by the failing-input search only")
+MANIFEST_TEXT = ("C14: Coq theorems C14_bb_roundtrip / C14_xir_roundtrip (for every program satisfying the decidable hypotheses bb_prog_ok / "
+                 "xir_prog_ok, from(to(p)) = p exactly - commands, parameters, modes, dagger (XIR), select, dark_counts, target, options, TDM "
+                 "data); C14_bb_roundtrip_iff: for well-formed programs the Blackbird hypotheses are also necessary (full, iff); for XIR the "
+                 "converse is not proved.  Universally quantified 'never survives' theorems and _refuted witnesses show which hypotheses "
+                 "cannot be dropped for the current code (all recorded as known findings).  Model tied to /repo by exact correspondence of "
+                 "writer records, reader results and exception kinds; the text layer (external blackbird / xir packages) and generate_code "
+                 "are covered by the failing-input search only")
 
 
 def _corpus_files():
